@@ -67,19 +67,28 @@ Definition seg_to_Q (s : Seg FOps) : Seg QOps :=
 (* ---- tree case: id, cut points expected exact, qtMaxLevel, vertices, dumped tree, chains hint *)
 Definition tcase := (N * bool * N * list (float * float) * ftree * list (list fseg))%type.
 Definition tid (c : tcase) : N := let '(id, _, _, _, _, _) := c in id.
+(* The certificate on a dumped tree.  chain_check, box_check and nondeg_b do arithmetic and run at
+   QOps (exact rationals).  perm_check, ray_check and owner_check only compare coordinates; on
+   finite floats PrimFloat.eqb / leb ARE the exact comparisons of the real values, so these three
+   run at FOps (same generic text, ~1000x cheaper than comparing rationals). *)
+Definition cert (tol : Q) (tree : ftree) (sf : list (Seg FOps)) (chains : list (list fseg)) : bool * bool :=
+  let sq := map seg_to_Q sf in
+  let tq := @itree QOps fq tree in
+  let tf := @itree FOps fid tree in
+  let cq := map (map (@iseg QOps fq)) chains in
+  let cf := map (map (@iseg FOps fid)) chains in
+  let w := forall2b (@chain_check QOps tol) sq cq && @perm_check FOps (pieces tf) (concat cf) &&
+           @ray_check FOps tf && @owner_check FOps tf in
+  (w, w && @box_check QOps tol tq && forallb (@nondeg_b QOps) sq).
+
 (* (model rebuilds the dump, tolerant certificate, exact winding certificate, exact full certificate) *)
 Definition tcheck (c : tcase) : bool * bool * bool * bool :=
   let '(id, ex, maxlevel, verts, tree, chains) := c in
   let sf := segsF verts in
   let built := @mesh2d FOps (N.to_nat maxlevel) sf in
-  let sq := map seg_to_Q sf in
-  let tq := @itree QOps fq tree in
-  let cq := map (map (@iseg QOps fq)) chains in
   let tol := Qred (eps40 * tree_scale tree) in
-  let w0 := @winding_clipped_check QOps 0%Q tq sq cq in
-  (tree_same built (@itree FOps fid tree),
-   @well_clipped_check QOps tol tq sq cq,
-   w0, w0 && @box_check QOps 0%Q tq).
+  let c0 := cert 0%Q tree sf chains in
+  (tree_same built (@itree FOps fid tree), snd (cert tol tree sf chains), fst c0, snd c0).
 Definition tok (c : tcase) : bool :=
   let '(id, ex, _, _, _, _) := c in
   let '(same, certtol, w0, full0) := tcheck c in
@@ -87,10 +96,8 @@ Definition tok (c : tcase) : bool :=
 Definition mismatches_tree (cs : list tcase) : list N := map tid (filter (fun c => negb (tok c)) cs).
 (* information: trees on which the exact (tolerance 0) winding certificate does not hold *)
 Definition inexact_tree (cs : list tcase) : list N :=
-  map tid (filter (fun c => negb (snd (fst (tcheck c)))) cs).
-(* information: trees on which the exact full certificate holds *)
-Definition exact_full_tree (cs : list tcase) : list N :=
-  map tid (filter (fun c => snd (tcheck c)) cs).
+  map tid (filter (fun c : tcase => let '(id, ex, maxlevel, verts, tree, chains) := c in
+                                    negb (fst (cert 0%Q tree (segsF verts) chains))) cs).
 
 (* ---- eval case: vertices, dumped tree, points (id, run the Q spec, on the boundary, p, fast, slow) *)
 Definition epoint := (N * bool * bool * (float * float) * float * float)%type.
